@@ -35,7 +35,9 @@ BASE = [(0.0, 0.0, 0.0), (0.4, 0.3, 0.1), (1.5, 0.2, -0.2), (1.9, 1.1, 0.3), (2.
 def interp1d_model(x, y, bounds_error=True, fill_value=np.nan, axis=0, kind="linear", **kw):
     from symx.core import R
     xs = [R.lift(v) for v in np.asarray(x, dtype=object).ravel()]
-    ys = np.asarray(y, dtype=object)
+    ys = np.array(y, dtype=object, copy=True)      # scipy copies x and y by default (copy=True)
+    if kw.get("copy") is False:
+        ys = np.asarray(y, dtype=object)            # ... and keeps a view when told not to
 
     def f(t):
         t = R.lift(t)
@@ -279,6 +281,33 @@ def run_interpolated(sx, n, equalize=True):
     return "interpolated"
 
 
+def run_interpolated_many_points(sx):
+    """ground twin only (double rounding is invisible to exact arithmetic): interpolated curves through 9..24 unevenly
+    spaced points end exactly at their last defining point - parameter 1 is inside the curve's range"""
+    import random
+    rnd = random.Random(20261004)
+    sx.reach("interpolated")
+    bad = []
+    for case in range(80):
+        n = rnd.randint(9, 24)
+        pts = np.cumsum(np.array([[rnd.uniform(0.05, 2.0), rnd.uniform(-1, 1), rnd.uniform(-1, 1)] for _ in range(n)]), axis=0)
+        for cls in (cb.LinearInterpolatedCurve, cb.SplineInterpolatedCurve):
+            try:
+                curve = cls(pts)
+                end = np.asarray(curve.get_point(1), dtype=float)
+                d = np.asarray(curve.discretize(), dtype=float)
+                ok = bool(np.all(np.isfinite(end)) and np.linalg.norm(end - pts[-1]) < 1e-7 and np.linalg.norm(d[-1] - pts[-1]) < 1e-7
+                          and np.linalg.norm(d[0] - pts[0]) < 1e-7 and np.isfinite(curve.length))
+            except Exception as e:      # noqa
+                ok = False
+                end = f"{type(e).__name__}: {e}"[:100]
+            if not ok:
+                bad.append((case, n, cls.__name__, str(end)))
+    sx.prove(not bad, "interpolated curves through many unevenly spaced points: point(1) and discretize() end at the last defining "
+             "point, the length is finite", "C16:interpolated:end-point:many-points", info={"failures": bad[:4], "count": len(bad)})
+    return "interpolated"
+
+
 def run_line(sx):
     P = _points(sx, 2, sym=(0, 1))
     curve = cb.LineCurve(P[0], P[1], (-0.5, 1.5))
@@ -353,6 +382,7 @@ def jobs(tier, seed):
     js = [{"name": "discrete", "fn": "run_discrete"}, {"name": "discrete|closest", "fn": "run_closest"},
           *[{"name": f"analytic|closest|bounds {b}", "fn": "run_analytic_closest", "params": {"bounds": b}}
             for b in (ANALYTIC_BOUNDS if tier == "thorough" else ["-2..2", "1..3"])],
+          {"name": "interpolated|9-24 points|ground twin only", "fn": "run_interpolated_many_points", "symbolic": False},
           {"name": "line", "fn": "run_line"}, {"name": "line|length", "fn": "run_line_length"}, {"name": "edge-on-discrete-curve", "fn": "run_edge"}]
     for n in ((3,) if tier == "quick" else (3, 4)):
         for eq in (True, False):
